@@ -37,7 +37,7 @@ def scan_trusted(text):
         out.append('assume_specification ' + re.sub(r'\s+', ' ', m.group(1)))
     for m in re.finditer(r'(?:broadcast\s+)?axiom fn (\w+)', text):
         out.append('axiom ' + m.group(1))
-    for m in re.finditer(r'#\[verifier::external_body\]', text):
+    for m in re.finditer(r'#\[verifier::external_body\](?! /\*degraded\*/)', text):
         m2 = re.search(r'\b(?:const|fn|struct)\s+(\w+)', text[m.end():m.end() + 600])
         out.append('external_body ' + (m2.group(1) if m2 else '?'))
     for m in re.finditer(r'#\[verifier::external\]\s*(?:impl [^{]+|(?:pub\s+)?fn \w+)', text):
@@ -76,6 +76,70 @@ def diag_for(run, text, names):
                     out.append({'message': d['message'], 'line': s['line'], 'text': s['text'], 'rendered': d['rendered'][:1500]})
                     break
     return out
+
+
+def locate_functions(run, text):
+    """(module, fn name, ordinal) of the real functions that the tool errors of this run point into"""
+    starts = [0]
+    for i, ch in enumerate(text):
+        if ch == '\n':
+            starts.append(i + 1)
+    mods = [(m.start(), m.group(1)) for m in re.finditer(r'^(?:pub(?:\([a-z]+\))? )?mod (\w+) \{', text, flags=re.M)]
+    out = []
+    for d in run['diagnostics']:
+        if out:
+            break       # one error at a time: later errors are often consequences of the first (a module that does not parse)
+        for sp in d['spans']:
+            if not sp.get('primary') or not sp['file'].endswith('.rs') or 'vstd' in sp['file'] or sp['line'] > len(starts):
+                continue
+            off = starts[sp['line'] - 1] + max(0, sp.get('col', 1) - 1)
+            encl = [x for x in mods if x[0] <= off]
+            if not encl:
+                continue
+            mstart, mname = encl[-1]
+            if mname not in extract.MODS:
+                continue
+            mtext = text[mstart:off + 1]
+            best = None
+            for fm in re.finditer(r'\bfn\s+([A-Za-z0-9_]+)', mtext):
+                # real functions only: not inside an inserted region
+                if mtext.rfind(extract.GOPEN, 0, fm.start()) > mtext.rfind(extract.GCLOSE, 0, fm.start()):
+                    continue
+                best = fm
+            if best is None:
+                continue
+            name = best.group(1)
+            ordinal = len(extract.fn_occurrences(text[mstart:mstart + best.start()], name))
+            if (mname, name, ordinal) not in out:
+                out.append((mname, name, ordinal))
+    return out
+
+
+def mentions_closure(text, roots):
+    """names reachable from the functions `roots` through 'the body of f mentions the identifier g' (over-approximate call graph)"""
+    plain = extract.strip_generated(text)
+    bodies = {}
+    for m in re.finditer(r'\bfn\s+([A-Za-z0-9_]+)', plain):
+        b = plain.find('{', m.end())
+        sc = plain.find(';', m.end())
+        if b < 0 or (0 <= sc < b):
+            continue
+        try:
+            e = extract.match_brace(plain, b)
+        except Exception:
+            continue
+        bodies.setdefault(m.group(1), set()).update(re.findall(r'[A-Za-z_][A-Za-z0-9_]*', plain[b:e]))
+    seen = set()
+    todo = [r for r in roots]
+    while todo:
+        f = todo.pop()
+        if f in seen:
+            continue
+        seen.add(f)
+        for g in bodies.get(f, ()):
+            if g in bodies and g not in seen:
+                todo.append(g)
+    return seen
 
 
 def known_findings(pid):
@@ -184,12 +248,26 @@ def main():
                 print('VIOLATION property=%s replay=%s' % (pid, rpath))
                 return 1
     # 1. re-extract from the current working tree and run the verifier (result cached on the generated text)
-    try:
-        text, info = extract.generate()
-    except Exception as e:
-        return undecided('extraction-failed:' + str(e).replace(' ', '_')[:200])
-    run = runverus.run_verus_on_text(text, 'coset_verus', [])
-    cls = runverus.classify(run)
+    # A function whose CURRENT body the verifier cannot even process (ghost text naming a local that no longer exists, a std
+    # function without a specification, ...) is set aside for this run: its contract is assumed, everything else is still
+    # verified, and every property that can reach that function is reported undecided (bounded probes decide it).
+    degrade = []
+    degrade_why = {}
+    for attempt in range(8):
+        try:
+            text, info = extract.generate(degrade=degrade)
+        except Exception as e:
+            return undecided('extraction-failed:' + str(e).replace(' ', '_')[:200])
+        run = runverus.run_verus_on_text(text, 'coset_verus', [])
+        cls = runverus.classify(run)
+        if cls != 'tool-error':
+            break
+        new = [x for x in locate_functions(run, text) if x not in degrade]
+        if not new:
+            break
+        for x in new:
+            degrade_why['%s::%s#%d' % x] = re.sub(r'\s+', '_', (run['diagnostics'][0]['message'] if run['diagnostics'] else '?'))[:160]
+        degrade += new
     # Kani harnesses do not depend on the Verus run: a failing complete harness is a violation with a concrete counterexample
     kani = None
     if any(k.startswith('kani') for _, k in obligations.OBLIGATIONS[pid]):
@@ -212,6 +290,19 @@ def main():
         msg = (run['diagnostics'][0]['message'] if run['diagnostics'] else run.get('stderr_tail', '')[-300:])
         return undecided('verifier-did-not-run-to-completion:' + re.sub(r'\s+', '_', msg)[:200])
     tab = runverus.function_table(run)
+    degraded = info.get('degraded', [])
+    if degraded:
+        roots = set()
+        for pat, kind in obligations.OBLIGATIONS[pid]:
+            if kind in ('body', 'nec'):
+                roots.add(pat.split('::')[-1].split('__nec_')[0])
+        names = set(x.split('::')[-1].split('#')[0] for x in degraded)
+        reach = mentions_closure(text, [r for r in roots if '*' not in r])
+        star = [r for r in roots if '*' in r]
+        hit = sorted(n for n in names if n in reach or any(fnmatch.fnmatchcase(n, sp) for sp in star))
+        if hit:
+            why = ';'.join('%s:%s' % (k, v) for k, v in degrade_why.items() if k.split('::')[-1].split('#')[0] in hit)
+            return undecided('verifier-cannot-process-the-current-body-of:' + ','.join(hit) + ':' + why[:200], {'trusted_base': [], 'degraded_functions': degraded})
 
     # 2. assumption scan against the committed allow-list
     trusted = scan_trusted(text)
@@ -289,6 +380,7 @@ def main():
         'inputs_sha256': info['inputs'], 'generated_sha256': info['generated_sha256'],
         'rewrites_applied': info['rewrites'], 'merge': info['merge'],
         'solver_stability': stability,
+        'degraded_functions': [{'function': k, 'reason': v, 'effect': 'body not processed by the verifier on this tree; contract assumed for this run; no obligation of this property can reach it'} for k, v in degrade_why.items()],
         'samples': [{'obligation': n, 'kind': k} for n, k in obl[:5]],
         'bounded': [n for n, k in obl if k.startswith('kani-bounded')] + ['replay:' + m for m in getattr(obligations, 'MEASUREMENTS', {}).get(pid, [])],
         'bounded_measurements': measurements,
